@@ -16,7 +16,8 @@ RULE = ('case i: an array-heavy program (array literals whose elements contain a
         'routines called from the deepest frame - also "lean" functions whose deepest call is write(int) next '
         'to a live stack array, and "frame shape" functions built from a seeded sequence of deep calls, array '
         'literals, dynamic arrays, byte/word locals and nested blocks that are all read back at the end - '
-        'compound element assignment; every 4th case a time-travel '
+        'compound element assignment; programs that compute with uninitialised int/byte/bool elements '
+        '(judged by the monitors only, under several poisons and stack sizes); every 4th case a time-travel '
         'program; every 5th case with a planted index/division fault) is first run with a generous stack; '
         'then the stack-size axis is ENUMERATED: every size 0..N+2 words where N is the first size that '
         'completes (N <= 90; larger needs are bisected and the window N-6..N+2 plus seeded smaller sizes is '
@@ -208,6 +209,36 @@ def frame_shape_prog(rnd, W):
     return prog([], [dump_func('int'), dump_func('byte'), dump_func('bool'), h3, hb] + fs), [str(rnd.choice((0, 1, 7, -3)))]
 
 
+def uninit_prog(rnd, W):
+    """Computes with uninitialised int/byte/bool elements (allowed: their value is unspecified).
+    Whatever garbage the poisoned stack holds, every access must stay inside its array: values
+    are reduced with `% length` before they are used as indices."""
+    n = rnd.choice((1, 3, 5, 8))
+    m = rnd.choice((2, 9, 17))
+    body = [
+        dyn('int', 'gi', bin_('+', bin_('%', V('q'), I(1)), I(n))),
+        dyn('byte', 'gb', I(n)),
+        dyn('bool', 'gf', I(m)),
+        decl(arr('int'), 'safe', ('arr', tuple(I(k) for k in range(6))), True),
+        decl('int', 'acc', I(0)),
+        for_up('i', I(0), ln('gi'),
+               decl('int', 'j', bin_('%', idx('gi', V('i')), I(6))),
+               aug('+', 'acc', idx('safe', V('j'))),
+               setv(idx('safe', V('j')), bin_('+', V('i'), I(1))),
+               decl('int', 'k', bin_('%', is_(idx('gb', bin_('%', V('i'), ln('gb'))), 'int'), ln('gf'))),
+               if_(idx('gf', V('k')), block(setv(idx('gf', V('k')), B(False))), block(setv(idx('gf', V('k')), B(True)))),
+               if_(bin_('==', idx('gf', V('k')), ('un', 'not', ('un', 'not', idx('gf', V('k'))))), block(write(C('.'))),
+                   block(write(C('X'))))),
+        write(C('|')), ex(call('dump', V('safe'))),
+    ]
+    if rnd.random() < 0.5:
+        body = [ex(call('dirty', V('q')))] + body
+    dirty = func('empty', 'dirty', [('int', 'x')],
+                 decl(arr('byte'), 'junk', ('arr', tuple(I(255 - 7 * k) for k in range(12))), True),
+                 decl(arr('int'), 'junk2', ('arr', (V('x'), I(-1), I(12345))), True), write(idx('junk', I(3))))
+    return prog([], [dump_func('int'), dirty, func('empty', '@is_you', [('int', 'q')], *body)]), [str(rnd.randrange(-5, 50))]
+
+
 def make_case(seed, idx):
     rnd = case_rng(seed, ID, idx)
     W = rnd.choice((2, 2, 3, 4, 8))
@@ -226,6 +257,9 @@ def make_case(seed, idx):
     elif idx % 7 in (1, 6):
         p, argv = frame_shape_prog(rnd, W)
         kind = 'frame'
+    elif idx % 7 == 4 and idx % 2 == 0:
+        p, argv = uninit_prog(rnd, W)
+        kind = 'uninit'
     else:
         cfg = heavy_cfg(rnd)
         cfg['W'] = W
@@ -283,6 +317,36 @@ def case(seed, idx, tier):
     res['key'] = digest(ev.src, argv, W)
     res['counters']['kind_' + kind] = 1
     ref = ev.ref
+    if kind == 'uninit':
+        # the reference model refuses to predict unspecified values: judge by the monitors,
+        # at several stack sizes and poisons
+        found = [x for x in found if x[0] != 'history']
+        bad = (found, ev, gcfg) if found else None
+        runs = 0
+        for s_, po in ((common.GENEROUS, 11), (common.GENEROUS, 12), (200, 13), (60, 14), (40, 15), (30, 16), (25, 17), (20, 18)):
+            cfg_u = dict(W=W, stack=s_, poison_seed=idx * 100 + po, max_steps=1_500_000)
+            ev_u = common.evaluate(p, argv, ref=ref, **cfg_u)
+            common.add_counters(res, ev_u)
+            runs += 1
+            pr = [(c, d) for c, d in ev_u.problems if c in CLASSES]
+            if ev_u.res is not None and ev_u.res.outcome not in ('WIN', 'ERROR', 'BUDGET'):
+                pr.append(('halt', f'uninitialised-data run ended {ev_u.res.outcome}'))
+            if ev_u.res is not None and ev_u.res.outcome == 'ERROR' and ev_u.res.error_kind != 'stack_overflow':
+                pr.append(('history', f'uninitialised-data run raised {ev_u.res.error_kind} although every index is reduced modulo its length'))
+            if ev_u.res is not None and b'X' in ev_u.res.output():
+                pr.append(('history', 'an uninitialised bool element is not a strict 0/1 value'))
+            if pr and bad is None:
+                bad = (pr, ev_u, cfg_u)
+        res['counters']['uninit_runs'] = runs
+        res['faults_fired']['poison'] = runs
+        res['nontrivial'] = True
+        res['digest'] = digest(res['key'], bad[0] if bad else None)
+        if bad is not None:
+            probs, ev_b, cfg_b = bad
+            res['violations'].append({'cls': probs[0][0], 'detail': probs[0][1], 'fingerprint': None,
+                                      'payload': common.payload(p, argv, ev_b, {'kind': kind}),
+                                      'sample': common.sample_of(p, argv, ev_b)})
+        return res
     bad = (found, ev, gcfg) if found else None
     sizes_run = 0
     below = 0
